@@ -5,7 +5,7 @@ from sexpr import enc, hexs, unhex
 from odata_query import ast
 from odata_query.grammar import ODataLexer, ODataParser
 
-PROP_MODS = ["ODataVerif.Tie.ParserTables", "ODataVerif.Props.C19", "ODataVerif.Props.C13Text"]
+PROP_MODS = ["ODataVerif.Tie.ParserTables", "ODataVerif.Props.C19", "ODataVerif.Props.C13Text", "ODataVerif.Props.C19Text"]
 WS_RUNS = [" ", "  ", "\t", "\n", " \n ", "\r\n", "\n\n", "\t \t", "\x0b", "\x0c", " ", " "]
 OPS = {"ADD", "SUB", "MUL", "DIV", "MOD", "AND", "OR", "EQ", "NE", "LT", "LE", "GT", "GE", "IN"}
 
